@@ -141,6 +141,13 @@ def _allocs(rng, parts):
         if rng.random() < 0.2:
             rec['max_utilization'] = rng.choice([1, 2])
         out.append(rec)
+        r2 = random.Random(repr(rng.getstate()[1][:4]))
+        if r2.random() < 0.15:
+            # (side stream) a later, narrower assignment of the same proid in another allocation - possibly another
+            # partition, other traits: the first matching assignment keeps applying
+            out.append({'name': 't%d/b' % i, 'partition': r2.choice(parts) or '_default', 'rank': 100,
+                        'memory': '4G', 'cpu': '100%', 'disk': '4G', 'traits': r2.choice([[], ['t1'], ['t3']]),
+                        'assignments': [{'pattern': 'p%d.a0*' % (i + 1), 'priority': r2.choice([1, 60])}]})
     return out
 
 
@@ -1808,8 +1815,7 @@ class _SchedView(object):
             base = appname.split('#')[0]
             hits_ = [a_ for a_ in (allocs or []) for asg in a_.get('assignments', [])
                      if fnmatch.fnmatch(base, asg.get('pattern', '')) or fnmatch.fnmatch(appname, asg.get('pattern', ''))]
-            if len(hits_) > 1:
-                return None                     # ambiguous in the generator's own terms: not judged
+            # (several matching assignments of one proid: the first in record order applies - C06_assignment)
             if hits_:
                 own |= set(hits_[0].get('traits', []) or [])
             return own, off
@@ -1863,8 +1869,7 @@ class _SchedView(object):
             want = '_default'
             hits_ = [a_ for a_ in (allocs or []) for asg in a_.get('assignments', [])
                      if fnmatch.fnmatch(base, asg.get('pattern', '')) or fnmatch.fnmatch(appname, asg.get('pattern', ''))]
-            if len(hits_) > 1:
-                return None                     # ambiguous in the generator's own terms: not judged
+            # (several matching assignments of one proid: the first in record order applies - C06_assignment)
             if hits_:
                 want = hits_[0].get('partition') or '_default'
             return want, (sdata.get('partition') or '_default')
@@ -1950,8 +1955,6 @@ def _monitor_partition_queues(w):
         base = an.split('#')[0]
         hits_ = [a_ for a_ in (allocs or []) for asg in a_.get('assignments', [])
                  if fnmatch.fnmatch(base, asg.get('pattern', '')) or fnmatch.fnmatch(an, asg.get('pattern', ''))]
-        if len(hits_) > 1:
-            continue                        # ambiguous in the generator's own terms: not judged
         want = (hits_[0].get('partition') or '_default') if hits_ else '_default'
         w.stats['c06-queued-instance'] += 1
         # the priority the instance is queued with is the one its stored manifest declares (0 included; absent or
